@@ -23,10 +23,10 @@ func init() {
 				Flavours: []string{"plain", "race", "cover"},
 				Blocks:   16,
 				Procs:    16,
-				Rule: "case = pair (lhs, rhs) of int sequences. Exhaustive: every pair over alphabet 3 x length <= 7 (10,758,400 pairs), alphabet 2 x length <= 9 (1,046,529 pairs) and alphabet 4 x length <= 5 (1,863,225 pairs) in quick; additionally alphabet 2 x length <= 11, alphabet 3 x length <= 8 (96.8 M pairs) and alphabet 5 x length <= 5 in thorough; every pair of windows (prefix/prefix, window/prefix, suffix/prefix) of one shared backing array of up to 9 binary elements (inputs that alias each other); random pairs of length up to 400 made of long common runs with point mutations, insertions, deletions and block moves over alphabets of 2..50 symbols. " +
+				Rule: "case = pair (lhs, rhs) of int sequences. Exhaustive: every pair over alphabet 3 x length <= 7 (10,758,400 pairs), alphabet 2 x length <= 9 (1,046,529 pairs) and alphabet 4 x length <= 5 (1,863,225 pairs) in quick; additionally alphabet 2 x length <= 11, alphabet 3 x length <= 8 (96.8 M pairs) and alphabet 5 x length <= 5 in thorough; every pair of windows (prefix/prefix, window/prefix, suffix/prefix) of one shared backing array of up to 9 binary elements (inputs that alias each other); pairs of 4100..11700 elements (length products past 2^24..2^27: a repeated block removed, scattered edits); random pairs of length up to 400 made of long common runs with point mutations, insertions, deletions and block moves over alphabets of 2..50 symbols. " +
 					"Per pair: interpreter (each edit's X and Y are the spans of lhs and rhs at the current offsets, by value and by address; lhs consumed and rhs produced exactly), emitted element count == LCS length from an independent O(mn) table, canonical form (no empty edit, adjacent edits differ in kind, no Drop next to Copy, only the four opcodes, empty iff equal), inputs unmodified; a sample of returned scripts is kept and verified again after later calls; 8 goroutines call EditScript concurrently on unshared inputs (plain and under -race); interleaved with all of it, calls that fail half-way and are recovered by the caller (uncomparable interface elements compared with ==, a panicking equality function), so that every verified call also runs right after a failed one. " +
 					"distinct = the pair itself (enumerated without repetition; random pairs by hash); non-trivial = the pair has more than one optimal alignment (counted by a separate DP)",
-				Required:     []string{"pairs", "ambiguous_pairs", "replace_edits", "equal_pairs", "random_pairs", "aliased_pairs", "concurrent_calls", "kept_results_rechecked", "interface_element_cases", "abandoned_calls"},
+				Required:     []string{"pairs", "ambiguous_pairs", "replace_edits", "equal_pairs", "random_pairs", "aliased_pairs", "concurrent_calls", "kept_results_rechecked", "interface_element_cases", "abandoned_calls", "very_large_pairs"},
 				Exhaustive:   true,
 				Assumptions:  []string{"the O(mn) LCS table is the reference for minimality"},
 				CoverPkgs:    []string{"github.com/creachadair/mds/slice"},
@@ -431,6 +431,36 @@ func runC11(c *fw.Ctx) {
 		c.Add("pairs", n)
 		c.Add("aliased_pairs", n)
 		c.SeenEnum(n)
+	}
+	// very large pairs: the product of the lengths passes 2^24, 2^26, 2^27
+	for k := 0; k < 6; k++ {
+		if (k+3)%c.NBlocks != c.Block || !c.Begin(idx+950000+k) {
+			continue
+		}
+		n := []int{4100, 8200, 11700}[k%3]
+		r := c.Rng()
+		lhs := make([]int, n)
+		for i := range lhs {
+			lhs[i] = r.IntN(30)
+		}
+		var rhs []int
+		if k < 3 { // one of two adjacent identical blocks removed
+			rhs = append(append([]int(nil), lhs[:n/2]...), lhs[n/2+n/8:]...)
+			copy(lhs[n/2+n/8:], lhs[n/2:n/2+n/8])
+		} else { // scattered point edits and a replaced middle
+			rhs = append([]int(nil), lhs...)
+			for i := 17; i < len(rhs); i += 501 {
+				rhs[i] = 99
+			}
+			rhs = append(rhs[:n/3], rhs[n/3+100:]...)
+		}
+		a, nrep := c11check(c, lhs, rhs)
+		c.Add("pairs", 1)
+		c.Add("very_large_pairs", 1)
+		c.Add("replace_edits", int64(nrep))
+		if a {
+			c.Add("ambiguous_pairs", 1)
+		}
 	}
 	// random long pairs
 	nr := c.Pick(150, 3000)
